@@ -52,7 +52,14 @@ var fmtExt = []string{".txt", ".html", ".css", ".js", ".json", ".md"}
 var fmtKeyword = []string{"string", "html", "css", "js", "json", "markdown"}
 var fmtName = []string{"text", "html", "css", "js", "json", "markdown"}
 var ctxName = []string{"text", "html", "css", "js", "json", "markdown", "tag", "quotedAttr", "unquotedAttr",
-	"cssString", "jsString", "jsonString", "tabCodeBlock", "spacesCodeBlock"}
+	"cssString", "jsString", "jsonString", "tabCodeBlock", "spacesCodeBlock", "urlQuoted", "urlUnquoted"}
+
+// contexts 14 and 15: the whole value of a URL attribute (quoted / unquoted), i.e. ContextQuotedAttr /
+// ContextUnquotedAttr with the emitter's inURL flag
+const (
+	ctxURLQuoted   = 14
+	ctxURLUnquoted = 15
+)
 
 // compatible is the property's notion (independent of the Lean model's definition, same content):
 // a value of format type `from` shown in ctx is written as it is / through the converter.
@@ -66,7 +73,7 @@ type wrap struct{ pre, post string }
 // leaves the lexer in the top-level context of the format. No URL attributes.
 var wraps = [][]wrap{
 	fText: {{"", ""}, {"(", ")"}},
-	fHTML: {{"", ""}, {"<b>", "</b>"}, {"<i title=\"", "\">t</i>"}, {"<i title=", ">t</i>"}, {"<i ", ">t</i>"},
+	fHTML: {{"", ""}, {"<b>", "</b>"}, {"<a href=\"", "\">t</a>"}, {"<a href=", ">t</a>"}, {"<i title=\"", "\">t</i>"}, {"<i title=", ">t</i>"}, {"<i ", ">t</i>"},
 		{"<script>var a = ", ";</script>"}, {"<script>var a = \"", "\";</script>"},
 		{"<style>p{content:", "}</style>"}, {"<style>p{content:\"", "\"}</style>"},
 		{"<script type=\"application/ld+json\">{\"a\":", "}</script>"},
@@ -93,14 +100,16 @@ var consts = []string{"x", "<b>&\"'", "*_#`", "a b", "</script>", "\\", "a\nb", 
 // ---------------------------------------------------------------- generated sets
 
 type gatom struct {
-	kind   byte   // 'T' text, 'S' shown constant, 'R' render, 'C' macro call
-	text   string // T, S
-	w      wrap   // S, R, C
-	target int    // R: index of the rendered file
-	ref    string // R: the path as written
-	macro  int    // C
-	viaVar bool   // R, C: {% var v = X %}{{ v }} instead of {{ X }}
-	ctx    int    // S, R, C: context of the Show node, read from the real parser
+	kind   byte     // 'T' text, 'S' shown constant, 'P' shown parameter, 'R' render, 'C' macro call
+	param  int      // P: index of the parameter of the enclosing macro
+	args   []string // C: constant arguments
+	text   string   // T, S
+	w      wrap     // S, R, C
+	target int      // R: index of the rendered file
+	ref    string   // R: the path as written
+	macro  int      // C
+	viaVar bool     // R, C: {% var v = X %}{{ v }} instead of {{ X }}
+	ctx    int      // S, R, C: context of the Show node, read from the real parser
 }
 
 type gitem struct {
@@ -108,6 +117,8 @@ type gitem struct {
 	a      gatom
 	id     int     // M
 	mfmt   int     // M: -1 = no result format
+	params []int   // M: parameter types (formats; text = string)
+	rank   int     // M: callees have a lower rank (declaration order in sequentially scoped files)
 	body   []gatom // M
 	target int     // X, I
 	ref    string  // X, I
@@ -154,10 +165,16 @@ func (f *gfile) source() string {
 			b.WriteString(a.text)
 		case 'S':
 			b.WriteString(a.w.pre + "{{ " + strconv.Quote(a.text) + " }}" + a.w.post)
+		case 'P':
+			b.WriteString(a.w.pre + "{{ p" + strconv.Itoa(a.param) + " }}" + a.w.post)
 		case 'R', 'C':
 			expr := "render " + strconv.Quote(a.ref)
 			if a.kind == 'C' {
-				expr = macroName(a.macro) + "()"
+				var qs []string
+				for _, x := range a.args {
+					qs = append(qs, strconv.Quote(x))
+				}
+				expr = macroName(a.macro) + "(" + strings.Join(qs, ", ") + ")"
 			}
 			if a.viaVar {
 				nvar++
@@ -175,6 +192,13 @@ func (f *gfile) source() string {
 			atom(&it.a)
 		case 'M':
 			b.WriteString("{% macro " + macroName(it.id))
+			if len(it.params) > 0 {
+				var ps []string
+				for k, t := range it.params {
+					ps = append(ps, "p"+strconv.Itoa(k)+" "+fmtKeyword[t])
+				}
+				b.WriteString("(" + strings.Join(ps, ", ") + ")")
+			}
 			if it.mfmt >= 0 {
 				b.WriteString(" " + fmtKeyword[it.mfmt])
 			}
@@ -277,6 +301,14 @@ func encAtom(a *gatom, b *strings.Builder) {
 		if a.w.post != "" {
 			b.WriteString(" T " + proto.Hex([]byte(a.w.post)))
 		}
+	case 'P':
+		if a.w.pre != "" {
+			b.WriteString(" T " + proto.Hex([]byte(a.w.pre)))
+		}
+		fmt.Fprintf(b, " P %d %d", a.ctx, a.param)
+		if a.w.post != "" {
+			b.WriteString(" T " + proto.Hex([]byte(a.w.post)))
+		}
 	case 'R':
 		if a.w.pre != "" {
 			b.WriteString(" T " + proto.Hex([]byte(a.w.pre)))
@@ -289,7 +321,10 @@ func encAtom(a *gatom, b *strings.Builder) {
 		if a.w.pre != "" {
 			b.WriteString(" T " + proto.Hex([]byte(a.w.pre)))
 		}
-		fmt.Fprintf(b, " C %d %d %s", a.ctx, a.macro, flag(a.viaVar))
+		fmt.Fprintf(b, " C %d %d %s %d", a.ctx, a.macro, flag(a.viaVar), len(a.args))
+		for _, x := range a.args {
+			b.WriteString(" " + proto.Hex([]byte(x)))
+		}
 		if a.w.post != "" {
 			b.WriteString(" T " + proto.Hex([]byte(a.w.post)))
 		}
@@ -327,14 +362,16 @@ func (s *gset) encode() string {
 			switch it.kind {
 			case 'A':
 				// a wrapped site is up to three atoms, each its own item
-				var ab strings.Builder
-				encAtom(&it.a, &ab)
-				parts := strings.Fields(ab.String())
-				// re-split into atoms: every atom starts with T, S, R or C followed by its fixed arity
-				for k := 0; k < len(parts); {
-					ar := map[string]int{"T": 1, "S": 2, "R": 3, "C": 3}[parts[k]]
-					b.WriteString(" A " + strings.Join(parts[k:k+1+ar], " "))
-					k += 1 + ar
+				a := it.a
+				if a.kind != 'T' && a.w.pre != "" {
+					b.WriteString(" A T " + proto.Hex([]byte(a.w.pre)))
+				}
+				bare := a
+				bare.w = wrap{}
+				b.WriteString(" A")
+				encAtom(&bare, &b)
+				if a.kind != 'T' && a.w.post != "" {
+					b.WriteString(" A T " + proto.Hex([]byte(a.w.post)))
 				}
 			case 'M':
 				nb := 0
@@ -345,7 +382,11 @@ func (s *gset) encode() string {
 				if it.mfmt >= 0 {
 					mf = strconv.Itoa(it.mfmt)
 				}
-				fmt.Fprintf(&b, " M %d %s %d", it.id, mf, nb)
+				fmt.Fprintf(&b, " M %d %s %d", it.id, mf, len(it.params))
+				for _, t := range it.params {
+					fmt.Fprintf(&b, " %d", t)
+				}
+				fmt.Fprintf(&b, " %d", nb)
 				for j := range it.body {
 					encAtom(&it.body[j], &b)
 				}
@@ -394,12 +435,23 @@ func runEngine(files scriggo.Files, name string, globals native.Declarations, co
 	if ctxs != nil {
 		opts.UnexpandedTransformer = func(tree *ast.Tree) error {
 			var list []int
+			inURL := false
 			var walk func(nodes []ast.Node)
 			walk = func(nodes []ast.Node) {
 				for _, n := range nodes {
 					switch n := n.(type) {
+					case *ast.URL:
+						inURL = true
+						walk(n.Value)
+						inURL = false
 					case *ast.Show:
-						list = append(list, int(n.Context))
+						ctx := int(n.Context)
+						if inURL && n.Context == ast.ContextQuotedAttr {
+							ctx = ctxURLQuoted
+						} else if inURL && n.Context == ast.ContextUnquotedAttr {
+							ctx = ctxURLUnquoted
+						}
+						list = append(list, ctx)
 					case *ast.Func:
 						if n.Body != nil {
 							walk(n.Body.Nodes)
@@ -448,6 +500,8 @@ var ctxHost = []struct {
 	ast.ContextJSONString:      {fJSON, "{\"s\":\"", "\"}"},
 	ast.ContextTabCodeBlock:    {fMD, "p\n\n\tc ", "\n\nq"},
 	ast.ContextSpacesCodeBlock: {fMD, "p\n\n    c ", "\n\nq"},
+	ctxURLQuoted:               {fHTML, "<a href=\"", "\">"},
+	ctxURLUnquoted:             {fHTML, "<a href=", ">"},
 }
 
 type escKey struct {
@@ -512,10 +566,11 @@ func (m *measurer) esc(from, ctx int, content string) (string, error) {
 // ---------------------------------------------------------------- generator
 
 type genState struct {
-	c       *hx.Ctx
-	set     *gset
-	nextMac int
-	macFmt  map[int]int // macro id -> result format
+	c         *hx.Ctx
+	set       *gset
+	nextMac   int
+	macFmt    map[int]int   // macro id -> result format
+	macParams map[int][]int // macro id -> parameter types
 }
 
 func (g *genState) pick(n int) int { return g.c.R.Intn(n) }
@@ -541,8 +596,8 @@ func (g *genState) refTo(from, to string) string {
 }
 
 // atoms generates the body of a macro or the top level of a file. format is the format whose
-// top-level context surrounds the atoms.
-func (g *genState) atoms(self *gfile, format int, n int, macros []int, partials []int) []gatom {
+// top-level context surrounds the atoms; params are the parameter types of the enclosing macro.
+func (g *genState) atoms(self *gfile, format int, n int, macros []int, partials []int, params []int) []gatom {
 	var out []gatom
 	text := func() {
 		out = append(out, gatom{kind: 'T', text: texts[format][g.pick(len(texts[format]))]})
@@ -557,12 +612,26 @@ func (g *genState) atoms(self *gfile, format int, n int, macros []int, partials 
 		case k < 2:
 			text()
 		case k < 4:
-			out = append(out, gatom{kind: 'S', text: consts[g.pick(len(consts))], w: w})
+			if len(params) > 0 && g.pick(2) == 0 {
+				out = append(out, gatom{kind: 'P', param: g.pick(len(params)), w: w})
+			} else {
+				out = append(out, gatom{kind: 'S', text: consts[g.pick(len(consts))], w: w})
+			}
 		case k < 7 && len(partials) > 0:
 			t := partials[g.pick(len(partials))]
+			if strings.Contains(w.pre, "href=") {
+				// a render inside a URL attribute compiles the partial with the emitter's inURL flag
+				// (finding render-inherits-inurl): kept out of the modelled stream
+				w = ws[0]
+			}
 			out = append(out, gatom{kind: 'R', target: t, ref: g.refTo(self.path, g.set.files[t].path), w: w, viaVar: g.pick(3) == 0})
 		case len(macros) > 0:
-			out = append(out, gatom{kind: 'C', macro: macros[g.pick(len(macros))], w: w, viaVar: g.pick(3) == 0})
+			id := macros[g.pick(len(macros))]
+			var args []string
+			for range g.macParams[id] {
+				args = append(args, consts[g.pick(len(consts))])
+			}
+			out = append(out, gatom{kind: 'C', macro: id, args: args, w: w, viaVar: g.pick(3) == 0})
 		default:
 			text()
 		}
@@ -570,6 +639,10 @@ func (g *genState) atoms(self *gfile, format int, n int, macros []int, partials 
 		if g.pick(3) > 0 {
 			text()
 		}
+	}
+	// every parameter is shown at least sometimes
+	if len(params) > 0 && g.pick(2) == 0 {
+		out = append(out, gatom{kind: 'P', param: g.pick(len(params)), w: wraps[format][0]})
 	}
 	return out
 }
@@ -590,20 +663,31 @@ func (g *genState) index(f *gfile) int {
 	return -1
 }
 
-// macroDecl appends a macro declaration to f and returns its id.
-func (g *genState) macroDecl(f *gfile, macros, partials []int) int {
-	id := g.nextMac
+// newMacro reserves a macro: name, result format (explicit or the file's) and parameter types.
+func (g *genState) newMacro(f *gfile) (id, mfmt int) {
+	id = g.nextMac
 	g.nextMac++
-	mfmt := -1
+	mfmt = -1
 	bodyFmt := f.format
 	if g.pick(2) == 0 {
 		mfmt = g.pick(6)
 		bodyFmt = mfmt
 	}
 	g.macFmt[id] = bodyFmt
-	body := g.atoms(f, bodyFmt, 1+g.pick(3), macros, partials)
-	f.items = append(f.items, gitem{kind: 'M', id: id, mfmt: mfmt, body: body})
-	return id
+	var ps []int
+	if g.pick(3) == 0 {
+		for k := 0; k < 1+g.pick(2); k++ {
+			ps = append(ps, []int{fText, fText, fHTML, fMD, fJS}[g.pick(5)])
+		}
+	}
+	g.macParams[id] = ps
+	return
+}
+
+// macroDecl appends to f the declaration of a reserved macro.
+func (g *genState) macroDecl(f *gfile, id, mfmt, rank int, macros, partials []int) {
+	body := g.atoms(f, g.macFmt[id], 1+g.pick(3), macros, partials, g.macParams[id])
+	f.items = append(f.items, gitem{kind: 'M', id: id, mfmt: mfmt, params: g.macParams[id], rank: rank, body: body})
 }
 
 func (g *genState) ws(f *gfile) {
@@ -618,10 +702,43 @@ func (g *genState) importItem(f *gfile, lib int) {
 	f.items = append(f.items, gitem{kind: 'I', target: lib, ref: g.refTo(f.path, g.set.files[lib].path)})
 }
 
+// packageDecls appends k macro declarations with package scope (imported and extending files): a
+// macro may call the macros of the file that have a lower rank, wherever they are declared — forward
+// references included — and the macros in vis.
+func (g *genState) packageDecls(f *gfile, k int, vis, partials []int) (own []int) {
+	ids := make([]int, k)
+	mf := make([]int, k)
+	for i := range ids {
+		ids[i], mf[i] = g.newMacro(f)
+	}
+	rank := make([]int, k)
+	for i := range rank {
+		rank[i] = i
+	}
+	for i := k - 1; i > 0; i-- {
+		j := g.pick(i + 1)
+		rank[i], rank[j] = rank[j], rank[i]
+	}
+	for i := range ids {
+		callable := append([]int{}, vis...)
+		for j := range ids {
+			if rank[j] < rank[i] {
+				callable = append(callable, ids[j])
+				if j > i {
+					g.c.Res.Hist("forward-reference-possible")
+				}
+			}
+		}
+		g.macroDecl(f, ids[i], mf[i], rank[i], callable, partials)
+		g.ws(f)
+	}
+	return ids
+}
+
 // generate builds one set. Roles: libs are only imported; partials are only rendered; the layout is
 // only extended; child and main are only run.
 func generate(c *hx.Ctx) *gset {
-	g := &genState{c: c, set: &gset{}, macFmt: map[int]int{}}
+	g := &genState{c: c, set: &gset{}, macFmt: map[int]int{}, macParams: map[int][]int{}}
 	randFmt := func() int {
 		// html and text more often
 		return []int{fHTML, fHTML, fHTML, fText, fText, fMD, fMD, fJS, fCSS, fJSON}[g.pick(10)]
@@ -629,8 +746,7 @@ func generate(c *hx.Ctx) *gset {
 	exports := map[int][]int{} // file index -> exported macro ids
 	var libs, partials []int
 
-	nlibs := g.pick(3)
-	for i := 0; i < nlibs; i++ {
+	newLib := func(parts []int) {
 		f := g.newFile("lib", randFmt())
 		var vis []int
 		g.ws(f)
@@ -641,15 +757,14 @@ func generate(c *hx.Ctx) *gset {
 				g.ws(f)
 			}
 		}
-		var own []int
-		for k := 0; k < 1+g.pick(2); k++ {
-			id := g.macroDecl(f, append(append([]int{}, vis...), own...), nil)
-			own = append(own, id)
-			g.ws(f)
-		}
+		own := g.packageDecls(f, 1+g.pick(3), vis, parts)
 		idx := g.index(f)
 		exports[idx] = own
 		libs = append(libs, idx)
+	}
+	nlibs := g.pick(3)
+	for i := 0; i < nlibs; i++ {
+		newLib(nil)
 	}
 
 	fileBody := func(f *gfile, n int, extraMacros []int) {
@@ -660,13 +775,16 @@ func generate(c *hx.Ctx) *gset {
 				vis = append(vis, exports[l]...)
 			}
 		}
+		seq := 0
 		for k := 0; k < n; k++ {
 			if g.pick(4) == 0 {
-				id := g.macroDecl(f, vis, partials)
+				id, mf := g.newMacro(f)
+				g.macroDecl(f, id, mf, seq, vis, partials)
+				seq++
 				vis = append(vis, id)
 				continue
 			}
-			for _, a := range g.atoms(f, f.format, 1, vis, partials) {
+			for _, a := range g.atoms(f, f.format, 1, vis, partials, nil) {
 				f.items = append(f.items, gitem{kind: 'A', a: a})
 			}
 		}
@@ -678,17 +796,9 @@ func generate(c *hx.Ctx) *gset {
 		fileBody(f, 1+g.pick(4), nil)
 		partials = append(partials, g.index(f))
 	}
-	// macro bodies of libraries may render partials too: add one more library after the partials
+	// macro bodies of libraries may render partials too: one more library after the partials
 	if g.pick(2) == 0 {
-		f := g.newFile("lib", randFmt())
-		var own []int
-		for k := 0; k < 1+g.pick(2); k++ {
-			g.ws(f)
-			own = append(own, g.macroDecl(f, own, partials))
-		}
-		idx := g.index(f)
-		exports[idx] = own
-		libs = append(libs, idx)
+		newLib(partials)
 	}
 
 	if g.pick(3) > 0 {
@@ -703,7 +813,7 @@ func generate(c *hx.Ctx) *gset {
 		child.path = dirs[g.pick(len(dirs))] + "c" + strconv.Itoa(len(g.set.files)) + fmtExt[cfmt]
 		g.set.files = append(g.set.files, child)
 		child.items = append(child.items, gitem{kind: 'X', target: g.index(layout), ref: g.refTo(child.path, layout.path)})
-		var vis, own []int
+		var vis []int
 		g.ws(child)
 		if g.pick(2) == 0 {
 			for _, l := range libs {
@@ -714,10 +824,7 @@ func generate(c *hx.Ctx) *gset {
 				}
 			}
 		}
-		for k := 0; k < 1+g.pick(3); k++ {
-			own = append(own, g.macroDecl(child, append(append([]int{}, vis...), own...), partials))
-			g.ws(child)
-		}
+		own := g.packageDecls(child, 1+g.pick(3), vis, partials)
 		fileBody(layout, 2+g.pick(4), own)
 	}
 	main := g.newFile("main", randFmt())
@@ -788,6 +895,9 @@ func expansion(host *gfile, skip int, from *gfile, newPath string) *gfile {
 		}
 	}
 	imps, decls := declItems(from)
+	// from has package scope: written into a sequentially scoped file its declarations go in
+	// dependency order (callees first)
+	sort.SliceStable(decls, func(i, j int) bool { return decls[i].rank < decls[j].rank })
 	for _, it := range imps {
 		addImport(it, from.path)
 	}
@@ -818,7 +928,7 @@ func expansion(host *gfile, skip int, from *gfile, newPath string) *gfile {
 
 func run(c *hx.Ctx) error {
 	res := c.Res
-	res.Rule = "generated multi-file sets: 0-3 libraries (imported), 1-4 partials (rendered, nested up to depth 4), optionally a layout with a child that extends it (Markdown child on HTML layout included), a main file; formats text/html/css/js/json/markdown by extension; directories with relative and absolute references; macros with and without result format; show sites (constant, macro call, render; direct or through a variable) wrapped so as to sit in top-level, attribute, tag, script, style, string and code-block contexts. A case = one run of one file of a set (or of one of its expansions); non-trivial when the file contains at least one macro call or render site; distinct by the sources of the set plus the file run"
+	res.Rule = "generated multi-file sets: 0-3 libraries (imported), 1-4 partials (rendered, nested up to depth 4), optionally a layout with a child that extends it (Markdown child on HTML layout included), a main file; formats text/html/css/js/json/markdown by extension; directories with relative and absolute references; macros with and without result format and with 0-2 parameters (string or format types, constant arguments), with package scope and forward references in imported and extending files; show sites (constant, parameter, macro call, render; direct or through a variable) wrapped so as to sit in top-level, attribute, tag, script, style, string and code-block contexts. A case = one run of one file of a set (or of one of its expansions); non-trivial when the file contains at least one macro call or render site; distinct by the sources of the set plus the file run"
 	m := &measurer{cache: map[escKey]string{}}
 
 	// ---- known findings: replay the recorded minimal inputs
@@ -843,6 +953,29 @@ func run(c *hx.Ctx) error {
 		}
 	}
 
+	for _, q := range []string{"\"", ""} {
+		// risky: a partial first rendered inside a URL attribute, then in plain HTML
+		fs := scriggo.Files{"a.html": []byte(`<a href=` + q + `{{ render "p.html" }}` + q + `>x</a>[{{ render "p.html" }}]`), "p.html": []byte(`{{ "a b<" }}`)}
+		a := runEngine(fs, "a.html", nil, true, nil)
+		p := runEngine(fs, "p.html", nil, true, nil)
+		res.Count("render-in-url"+q, true)
+		if a.kind != "ok" || p.kind != "ok" || !strings.HasSuffix(a.out, "["+p.out+"]") {
+			b := proto.Break{Kind: "property", Name: "render-eq-standalone", Case: "a.html=" + string(fs["a.html"]) + " p.html=" + string(fs["p.html"]),
+				Human: "the second {{ render \"p.html\" }} (HTML context) must print p.html run on its own", Impl: a.line(), Model: "…[" + p.out + "]"}
+			if shown, err := m.esc(fText, map[string]int{"\"": ctxURLQuoted, "": ctxURLUnquoted}[q], "a b<"); err == nil && a.kind == "ok" && strings.HasSuffix(a.out, "["+shown+"]") {
+				b.Finding = c.Known("render-inherits-inurl")
+			}
+			res.AddBreak(b)
+		}
+	}
+	if c.HasFinding("macro-defer-loses-output") {
+		src := "{% macro M %}a{% defer func() {}() %}b{% end %}{% var s string = string(M()) %}[{{ s }}]"
+		a := runEngine(scriggo.Files{"a.txt": []byte(src)}, "a.txt", nil, true, nil)
+		if a.kind == "ok" && a.out == "[]" {
+			res.AddBreak(proto.Break{Kind: "property", Name: "show-eq-var", Finding: "macro-defer-loses-output",
+				Case: "a.txt=" + src, Human: src, Impl: a.line(), Model: "ok " + proto.Hex([]byte("[ab]"))})
+		}
+	}
 	if c.HasFinding("macro-format-context-after-tag") {
 		if x, y, rep := ctxFindingReproduces(); rep {
 			res.AddBreak(proto.Break{Kind: "property", Name: "import-eq-declaration-in-place", Finding: "macro-format-context-after-tag",
@@ -916,6 +1049,10 @@ func run(c *hx.Ctx) error {
 		if err := checkSet(c, m, set, si); err != nil {
 			return err
 		}
+	}
+	// ---- risky stream: macros with a deferred call (not modelled; engine oracle only)
+	if err := deferStream(c, m, guard); err != nil {
+		return err
 	}
 	// ---- malformed stream: the error classes of the model against the engine's
 	if err := malformed(c, m); err != nil {
@@ -1007,6 +1144,8 @@ func engineClass(r engineResult) string {
 		return "err undefined"
 	case strings.Contains(r.msg, "can not have extends"), strings.Contains(r.msg, "instead of"):
 		return "err badextends"
+	case strings.Contains(r.msg, "not enough arguments"), strings.Contains(r.msg, "too many arguments"):
+		return "err badargs"
 	}
 	return r.line()
 }
@@ -1014,7 +1153,7 @@ func engineClass(r engineResult) string {
 func hasSites(f *gfile) bool {
 	n := 0
 	f.forEachSite(func(a *gatom) {
-		if a.kind != 'S' {
+		if a.kind == 'R' || a.kind == 'C' {
 			n++
 		}
 	})
@@ -1067,7 +1206,7 @@ func checkSet(c *hx.Ctx, m *measurer, set *gset, si int) error {
 	for idx, f := range set.files {
 		var sites []*gatom
 		f.forEachSite(func(a *gatom) {
-			if a.kind != 'S' {
+			if a.kind == 'R' || a.kind == 'C' {
 				sites = append(sites, a)
 			}
 		})
@@ -1116,6 +1255,9 @@ func checkSet(c *hx.Ctx, m *measurer, set *gset, si int) error {
 				hostFmt = c.R.Intn(6)
 			}
 			w := wraps[hostFmt][c.R.Intn(len(wraps[hostFmt]))]
+			if strings.Contains(w.pre, "href=") {
+				w = wraps[hostFmt][0]
+			}
 			for v := 0; v < 2; v++ {
 				host := &gfile{path: "zz/host" + fmtExt[hostFmt], format: hostFmt, role: "main"}
 				host.items = []gitem{{kind: 'A', a: gatom{kind: 'R', target: idx, ref: "/" + f.path, w: w, viaVar: v == 1}}}
@@ -1342,6 +1484,89 @@ func reportSite(c *hx.Ctx, m *measurer, set *gset, f *gfile, a *gatom, r *gfile,
 	res.AddBreak(b)
 }
 
+// deferStream: a macro whose body has a deferred call (of a function that does nothing) must behave
+// as the same macro without it: shown directly, through a variable, in every context. The recorded
+// finding macro-defer-loses-output is recognised precisely: the macro's output is lost exactly when
+// the call does not write through the caller's own renderer (generic path: the built string comes
+// back empty; Markdown→HTML buffer: nothing is converted), i.e. the failing output is the expected one
+// with the macro's content replaced by the empty content.
+func deferStream(c *hx.Ctx, m *measurer, guard map[[3]int]bool) error {
+	res := c.Res
+	n := c.N(60, 1500)
+	for i := 0; i < n; i++ {
+		from := c.R.Intn(6)
+		hostFmt := []int{from, from, c.R.Intn(6)}[c.R.Intn(3)]
+		w := wraps[hostFmt][c.R.Intn(len(wraps[hostFmt]))]
+		t1 := texts[from][c.R.Intn(len(texts[from]))]
+		t2 := texts[from][c.R.Intn(len(texts[from]))]
+		viaVar := c.R.Intn(2) == 0
+		build := func(deferred bool, viaVar bool) (string, string) {
+			d := ""
+			if deferred {
+				d = "{% defer func() {}() %}"
+			}
+			src := "{% macro M " + fmtKeyword[from] + " %}" + t1 + d + t2 + "{% end %}"
+			if viaVar {
+				src += "{% var v = M() %}" + w.pre + "{{ v }}" + w.post
+			} else {
+				src += w.pre + "{{ M() }}" + w.post
+			}
+			return "h" + fmtExt[hostFmt], src
+		}
+		name, src := build(true, viaVar)
+		_, plainSrc := build(false, viaVar)
+		ctxs := map[string][]int{}
+		got := runEngine(scriggo.Files{name: []byte(src)}, name, nil, true, ctxs)
+		plain := runEngine(scriggo.Files{name: []byte(plainSrc)}, name, nil, true, nil)
+		res.Count("defer "+src, true)
+		res.Hist("defer-stream")
+		if len(ctxs[name]) != 1 || plain.kind != "ok" {
+			res.AddBreak(proto.Break{Kind: "property", Name: "defer-stream-host-runs", Case: src, Human: src, Impl: plain.line(), Model: "ok"})
+			continue
+		}
+		ctx := ctxs[name][0]
+		// the same macro without the deferred call must itself be right: the typed value shown in ctx
+		shown, err := m.esc(from, ctx, t1+t2)
+		if err != nil {
+			return err
+		}
+		if want := w.pre + shown + w.post; plain.out != want {
+			b := proto.Break{Kind: "property", Name: "macro-eq-typed-value-shown", Case: plainSrc, Human: plainSrc, Impl: plain.line(), Model: "ok " + proto.Hex([]byte(want))}
+			res.AddBreak(b)
+			continue
+		}
+		if got.line() == plain.line() {
+			res.Hist("defer-same-renderer-ok")
+			continue
+		}
+		b := proto.Break{Kind: "property", Name: "macro-with-defer-eq-macro-without", Case: src, Human: src + "   against   " + plainSrc, Impl: got.line(), Model: plain.line()}
+		// classify: fast path through the caller's renderer?
+		fast := !viaVar && ctx <= int(ast.ContextMarkdown) && (ctx == from || (from == fMD && ctx == int(ast.ContextHTML)))
+		if g, ok := guard[[3]int{0, from, ctx}]; ok {
+			fast = !viaVar && g
+		}
+		lost := ""
+		switch {
+		case fast && ctx == from:
+			lost = "\x00never" // the caller's renderer: nothing can be lost
+		case fast:
+			lost = "" // Markdown buffer never converted
+		default:
+			e, err := m.esc(from, ctx, "")
+			if err != nil {
+				return err
+			}
+			lost = e
+		}
+		if got.kind == "ok" && got.out == w.pre+lost+w.post {
+			b.Finding = c.Known("macro-defer-loses-output")
+			res.Hist("defer-output-lost")
+		}
+		res.AddBreak(b)
+	}
+	return nil
+}
+
 // malformed: sets that must fail, with the model's error class.
 func malformed(c *hx.Ctx, m *measurer) error {
 	res := c.Res
@@ -1353,14 +1578,27 @@ func malformed(c *hx.Ctx, m *measurer) error {
 	}
 	cases := []bad{
 		{map[string]string{"a.html": `{{ render "x.html" }}`}, "a.html", "1 F 1 1 A R 1 7 0", "err nofile"},
-		{map[string]string{"a.html": `{{ M1() }}`}, "a.html", "1 F 1 1 A C 1 1 0", "err undefined"},
+		{map[string]string{"a.html": `{{ M1() }}`}, "a.html", "1 F 1 1 A C 1 1 0 0", "err undefined"},
 		{map[string]string{"a.html": `{{ render "x.html" }}`, "x.html": `{% extends "l.html" %}`, "l.html": "l"}, "a.html",
 			"3 F 1 1 A R 1 1 0 F 1 1 X 2 F 1 1 A T 6c", "err badextends"},
 		{map[string]string{"a.html": `{% extends "l.txt" %}`, "l.txt": "l"}, "a.html", "2 F 1 1 X 1 F 0 1 A T 6c", "err badextends"},
 		{map[string]string{"a.md": `{% extends "l.html" %}{% macro M1 %}*{% end %}`, "l.html": "[{{ M1() }}]"}, "a.md",
-			"2 F 5 2 X 1 M 1 - 1 T 2a F 1 3 A T 5b A C 1 1 0 A T 5d", "ok " + proto.Hex([]byte("[<md>*</md>]"))},
+			"2 F 5 2 X 1 M 1 - 0 1 T 2a F 1 3 A T 5b A C 1 1 0 0 A T 5d", "ok " + proto.Hex([]byte("[<md>*</md>]"))},
+		// imports are not transitive
 		{map[string]string{"a.html": `{% import "l.html" %}{{ M1() }}`, "l.html": `{% import "k.html" %}{% macro M2 %}x{% end %}`, "k.html": `{% macro M1 %}y{% end %}`}, "a.html",
-			"3 F 1 2 I 1 A C 1 1 0 F 1 2 I 2 M 2 - 1 T 78 F 1 1 M 1 - 1 T 79", "err undefined"},
+			"3 F 1 2 I 1 A C 1 1 0 0 F 1 2 I 2 M 2 - 0 1 T 78 F 1 1 M 1 - 0 1 T 79", "err undefined"},
+		// a forward reference: fine inside an imported file, undefined in a file that is run
+		{map[string]string{"a.html": `{% import "l.html" %}{{ M1() }}`, "l.html": `{% macro M1 %}{{ M2() }}{% end %}{% macro M2 %}y{% end %}`}, "a.html",
+			"2 F 1 2 I 1 A C 1 1 0 0 F 1 2 M 1 - 0 1 C 1 2 0 0 M 2 - 0 1 T 79", "ok " + proto.Hex([]byte("y"))},
+		{map[string]string{"a.html": `{{ M1() }}{% macro M1 %}x{% end %}`}, "a.html",
+			"1 F 1 2 A C 1 1 0 0 M 1 - 0 1 T 78", "err undefined"},
+		{map[string]string{"a.html": `{% macro M1 %}{{ M2() }}{% end %}{% macro M2 %}y{% end %}{{ M1() }}`}, "a.html",
+			"1 F 1 3 M 1 - 0 1 C 1 2 0 0 M 2 - 0 1 T 79 A C 1 1 0 0", "err undefined"},
+		// wrong number of arguments
+		{map[string]string{"a.html": `{% macro M1(p0 string) %}{{ p0 }}{% end %}{{ M1() }}`}, "a.html",
+			"1 F 1 2 M 1 - 1 0 1 P 1 0 A C 1 1 0 0", "err badargs"},
+		{map[string]string{"a.html": `{% macro M1(p0 string, p1 html) %}{{ p0 }}{{ p1 }}{% end %}{{ M1("<", "<") }}`}, "a.html",
+			"1 F 1 2 M 1 - 2 0 1 2 P 1 0 P 1 1 A C 1 1 0 2 3c 3c", "ok " + proto.Hex([]byte("&lt;<"))},
 	}
 	for _, b := range cases {
 		fs := scriggo.Files{}
